@@ -28,6 +28,8 @@ func runC08(c *Ctx, r *Report) {
 	r.Doc("R-C08.4", "the hash is not part of the encoded view; it is set from the requested identifier")
 	r.Doc("R-C08.5", "every reader and writer on the load path uses the configured codec (an entry written by one codec and read by the default one does not read back equal)")
 	optionForwarding(c, r, "R-C08.5", append(append(loaderFetchSpecs(), constructorLoaderSpecs()...), constructorLogSpecs()...), "IO")
+	r.Doc("R-C08.7", "the loops of the writers and readers (link lists, head lists) process every element")
+	loopsComplete(c, r, "R-C08.7", func(fn *Fn) bool { return inPkgs(c.P, fn, "io/jsonable", "io/cbor", "io/pb") || rootNamed(fn, "ToJSONLog", "Normalize", "entrySliceToCids") }, "links or heads after the point where the loop stops are not written (or not read back): the entry read back differs from the one written")
 
 	// ---- R-C08.1
 	ioFn := p.FuncI("io/cbor", "", "IO")
